@@ -431,7 +431,7 @@ pub(crate) fn resolve(t: &Terminal, w: &Wit, s: Src, m: MSrc, post_len: usize) -
     };
     // same view position before the step
     let rows = t.rows;
-    let view_before = if w.i >= post_len - rows {
+    let view_before = if post_len >= rows && pre_len >= rows && w.i >= post_len - rows {
         let r = w.i - (post_len - rows);
         Some(cell_at(t, pre_len - rows + r, w.c))
     } else {
@@ -1665,6 +1665,236 @@ pub(crate) fn t_ris(c: TCfg) {
     kv_end!();
     forget(t);
     forget(f);
+}
+
+// ------------------------------------------------------------------ resize, height only (C02, C10, C13, C16, C17)
+
+/// R-rows: Terminal::resize(cols, new_rows) with the width unchanged; old/new height and the
+/// cursor row are constants of the instance
+pub(crate) fn t_resize_rows(c: TCfg, new_rows: usize) {
+    let mut t = mk_terminal(&c);
+    let pre = snap(&t);
+    let tw = tab_witness(&t);
+    let (cols, rows) = (c.cols, c.rows);
+    let row = pre.row;
+    let l = pre.len;
+    // specification of a height-only resize
+    let (post_len, row2) = if new_rows < rows {
+        let delta = rows - new_rows;
+        let below = rows - 1 - row;
+        let excess = if delta < below { delta } else { below };
+        (l - excess, row - (delta - excess))
+    } else {
+        let delta = new_rows - rows;
+        let sb = l - rows;
+        let shift = if sb < delta { sb } else { delta };
+        (l + delta - shift, row + shift)
+    };
+    let w = any_wit(post_len, cols);
+    let src = if w.i < l { Src::Same } else { Src::Lit(' ', Pen::default()) };
+    let msrc = if w.i + 1 == post_len { MSrc::Val(false) } else if w.i < l { MSrc::Same } else { MSrc::Val(false) };
+    let e = resolve(&t, &w, src, msrc, post_len);
+    // parked screen witness
+    let pi = any_usize();
+    let pc = any_usize();
+    assume(pi < pre.other_len && pc < cols);
+    let parked_cell = b_cell(&t.other_buffer, pi, pc);
+    let resized = t.resize(cols, new_rows);
+    let s = snap(&t);
+    assert!(resized == (new_rows != rows), "[C02] resize reports whether the size changed");
+    assert!(s.cols == cols && s.rows == new_rows, "[C02] size() reports the geometry last requested");
+    assert!(s.len == post_len, "[C10] a height change drops only rows below the cursor and adds only blank rows at the bottom");
+    let post = cell_at(&t, w.i, w.c);
+    if let Some(x) = e.cell {
+        assert!(post == x, "[C10] a height change alters no line: every surviving line keeps its content and its place in lines()");
+    }
+    if let Some(m) = e.mark {
+        assert!(mark_at(&t, w.i) == m, "[C10] a height change keeps the soft-wrap marks (the new last line is never marked)");
+    }
+    assert!((post_len - new_rows) + s.row == (l - rows) + row, "[C10] the cursor stays on the same line of the text");
+    assert!(s.row == row2 && s.col == pre.col && s.pending_wrap == pre.pending_wrap, "[C10] the cursor keeps its column across a height change");
+    if new_rows != rows {
+        assert!(s.top == 0 && s.bottom == new_rows - 1, "[C05][C06] a height change resets the scroll region to the full screen");
+        assert!(dl_get(&t.dirty_lines, any_in(0, new_rows - 1)), "[C15] a resize reports every row as changed");
+    } else {
+        assert!(s.top == pre.top && s.bottom == pre.bottom, "[C05][C06] an unchanged height keeps the scroll region");
+    }
+    let want_saved = Ctx {
+        col: pre.saved.col,
+        row: if pre.saved.row >= new_rows { new_rows - 1 } else { pre.saved.row },
+        pen: pre.saved.pen,
+        origin: pre.saved.origin,
+        auto_wrap: pre.saved.auto_wrap,
+    };
+    assert!(s.saved == want_saved, "[C17] after a resize the saved position still lies inside the screen and is otherwise untouched");
+    assert!(s.alt_saved == pre.alt_saved && s.alt == pre.alt, "[C17][C16] the other screen's saved context is untouched by a resize");
+    assert!(s.other_len == pre.other_len && s.other_rows == pre.other_rows && b_cell(&t.other_buffer, pi, pc) == parked_cell, "[C16] a resize does not touch the parked screen");
+    assert!(s.pen == pre.pen && s.insert == pre.insert && s.origin == pre.origin && s.auto_wrap == pre.auto_wrap && s.new_line == pre.new_line && s.app_keys == pre.app_keys && s.visible == pre.visible, "[FR] a resize changes no mode and no pen");
+    assert!(s.tabs_len == pre.tabs_len && (pre.tabs_len == 0 || tabs_vec(&t.tabs)[tw.j] == tw.v), "[C18] a height change keeps the tab stops");
+    assert!(s.trim_needed, "[C13] a resize flags the buffer for trimming");
+    assert_inv(&t);
+    kv_cover!(pre.col == cols, "wrap-pending column");
+    kv_cover!(pre.alt, "alternate screen");
+    kv_end!();
+    forget(t);
+}
+
+/// S-clamp-width / T-tab-glue: Terminal::resize with a *width* change, Buffer::resize replaced by
+/// its contract (kv_resize_contract); asserts only what Terminal::resize / reflow do around it
+pub(crate) fn t_resize_glue(c: TCfg, new_cols: usize, new_rows: usize) {
+    let mut t = mk_terminal(&c);
+    let pre = snap(&t);
+    let (cols, rows) = (c.cols, c.rows);
+    let probe = any_in(0, if new_cols > cols { new_cols } else { cols });
+    let mut probe_before = false;
+    for s in tabs_vec(&t.tabs).iter() {
+        if *s == probe {
+            probe_before = true;
+        }
+    }
+    let resized = t.resize(new_cols, new_rows);
+    let s = snap(&t);
+    assert!(resized == (new_cols != cols || new_rows != rows), "[C02] resize reports whether the size changed");
+    assert!(s.cols == new_cols && s.rows == new_rows, "[C02] size() reports the geometry last requested");
+    assert!(s.col < new_cols && s.row < new_rows && (new_cols == cols || !s.pending_wrap), "[C02] after a width change the cursor lies inside the screen with no wrap pending");
+    let mut probe_after = false;
+    for x in tabs_vec(&t.tabs).iter() {
+        if *x == probe {
+            probe_after = true;
+        }
+    }
+    let want = if probe < cols && probe < new_cols {
+        probe_before
+    } else if probe >= cols && probe < new_cols {
+        probe % 8 == 0
+    } else {
+        false
+    };
+    assert!(probe_after == want, "[C18] narrowing discards the stops of the lost columns, widening adds the default stops of the new columns and keeps every surviving stop");
+    if new_rows == rows {
+        assert!(s.top == pre.top && s.bottom == pre.bottom, "[C05][C06] a width-only change keeps the scroll region");
+    } else {
+        assert!(s.top == 0 && s.bottom == new_rows - 1, "[C05][C06] a height change resets the scroll region to the full screen");
+    }
+    assert!(s.saved.col == if pre.saved.col >= new_cols { new_cols - 1 } else { pre.saved.col }, "[C17] after a resize the saved column still lies inside the screen");
+    assert!(s.saved.row == if pre.saved.row >= new_rows { new_rows - 1 } else { pre.saved.row }, "[C17] after a resize the saved row still lies inside the screen");
+    assert!(s.saved.pen == pre.saved.pen && s.saved.origin == pre.saved.origin && s.saved.auto_wrap == pre.saved.auto_wrap && s.alt_saved == pre.alt_saved, "[C17] a resize changes nothing else of the saved contexts");
+    assert!(dl_len(&t.dirty_lines) == new_rows && dl_get(&t.dirty_lines, any_in(0, new_rows - 1)), "[C15][C02] a resize reports every row of the new screen as changed");
+    kv_cover!(pre.col == cols, "wrap-pending column before the resize");
+    kv_end!();
+    forget(t);
+}
+
+// ------------------------------------------------------------------ changes() + gc() (C12, C13, C14)
+
+/// Terminal::changes(): returns exactly the flagged rows, strictly increasing, and clears them;
+/// nothing else changes
+pub(crate) fn t_changes(c: TCfg) {
+    let mut t = mk_terminal(&c);
+    let rows = c.rows;
+    t.dirty_lines = any_dirty(rows);
+    let pre = snap(&t);
+    let tw = tab_witness(&t);
+    let w = any_wit(pre.len, c.cols);
+    let e = resolve(&t, &w, Src::Same, MSrc::Same, pre.len);
+    let r = any_in(0, rows - 1);
+    let was_dirty = dl_get(&t.dirty_lines, r);
+    let ch = t.changes();
+    let mut reported = false;
+    for x in ch.iter() {
+        if *x == r {
+            reported = true;
+        }
+        assert!(*x < rows, "[C02] changed-line indices are smaller than rows");
+    }
+    if ch.len() >= 2 {
+        let j = any_in(0, ch.len() - 2);
+        assert!(ch[j] < ch[j + 1], "[C02] changed-line indices are strictly increasing");
+    }
+    assert!(reported == was_dirty, "[C15] changes() reports exactly the flagged rows");
+    assert!(!dl_get(&t.dirty_lines, r), "[C15] changes() clears the flags");
+    std::mem::forget(ch);
+    let allow = Allow::default();
+    frame(&pre, &t, &allow, &tw);
+    let post = cell_at(&t, w.i, w.c);
+    assert!(Some(post) == e.cell && Some(mark_at(&t, w.i)) == e.mark, "[C12] reading the changed lines changes no cell");
+    assert_inv(&t);
+    kv_end!();
+    forget(t);
+}
+
+/// V-gc: `gc()` (with `changes()`, decided by t_changes, this is what ends every feed_str / resize call) (what ends every feed_str / resize call), the returned
+/// iterator drained or dropped; sb / limit / active screen are constants of the instance
+pub(crate) fn t_gc(c: TCfg, drain: bool, tn: bool) {
+    let mut t = mk_terminal(&c);
+    // the pending-trim flag is a constant of the instance (G11: it is set whenever the bound is exceeded)
+    if let Some((_, hard)) = b_limit(&t.buffer) {
+        assume(tn || c.sb <= hard);
+    }
+    b_set_trim_needed(&mut t.buffer, tn);
+    let rows = c.rows;
+    let cols = c.cols;
+    let pre = snap(&t);
+    let tw = tab_witness(&t);
+    let sb = pre.len - rows;
+    let lim = b_limit(&t.buffer);
+    let excess = match lim {
+        Some((soft, hard)) => {
+            if pre.trim_needed && sb > hard {
+                sb - soft
+            } else {
+                0
+            }
+        }
+        None => 0,
+    };
+    let post_len = pre.len - excess;
+    let w = any_wit(post_len, cols);
+    let kept = cell_at(&t, w.i + excess, w.c);
+    let kept_mark = mark_at(&t, w.i + excess);
+    // witness among the lines handed out
+    let j = any_usize();
+    let jc = any_usize();
+    assume(jc < cols && (excess == 0 || j < excess));
+    let (out_cell, out_mark) = if excess > 0 { (cell_at(&t, j, jc), mark_at(&t, j)) } else { (Cell::default(), false) };
+    let mut yielded = 0usize;
+    {
+        let it = t.gc();
+        if drain {
+            for line in it {
+                if yielded == j && excess > 0 {
+                    assert!(line.cells[jc] == out_cell && line.wrapped == out_mark, "[C14] scrolled-off lines are handed out unchanged and in order");
+                }
+                yielded += 1;
+                std::mem::forget(line);
+            }
+        } else {
+            drop(it);
+        }
+    }
+    if drain {
+        assert!(yielded == if pre.alt { 0 } else { excess }, "[C14] exactly the lines removed from the primary's scrollback are handed out, none while the alternate screen shows");
+    }
+    let s = snap(&t);
+    assert!(s.len == post_len, "[C14][C13] trimming removes exactly the oldest lines beyond the soft limit, whether or not the iterator is consumed");
+    assert!(cell_at(&t, w.i, w.c) == kept && mark_at(&t, w.i) == kept_mark, "[C14][C12] lines that stay keep their content and order");
+    if let Some((soft, hard)) = lim {
+        assert!(s.len - rows <= hard, "[C13] after the call lines() holds at most rows + L + L/10 lines");
+        if soft == 0 {
+            assert!(s.len == rows, "[C13] with limit 0 (and on the alternate screen) lines() is exactly the visible rows");
+        }
+    } else {
+        assert!(s.len == pre.len, "[C12] with unlimited scrollback gc removes nothing");
+    }
+    let mut allow = Allow::default();
+    allow.len = true;
+    frame(&pre, &t, &allow, &tw);
+    assert!(!s.trim_needed || excess == 0, "[C13] a trim clears the pending flag");
+    assert_inv(&t);
+    kv_cover!(excess > 0, "something is trimmed");
+    kv_cover!(excess == 0, "nothing is trimmed");
+    kv_end!();
+    forget(t);
 }
 
 include!("terminal_gen.rs");
